@@ -7,6 +7,7 @@ property's quantifier prescribes; it appears as the definitions `World.apply` / 
 Quantifiers: every well-formed item (all shipped ones but D9, by C18), every 1024-byte block (= every current state),
 every command argument, every sequence of commands (induction).
 -/
+import GeckoModel.Proofs.WatercareRace
 import GeckoModel.Model.Commands
 import GeckoModel.Properties.C02
 import GeckoModel.Properties.C16
@@ -144,5 +145,34 @@ def exEco : Item := ⟨"EconActive", "EconActive", 277, .bool, 1, some 6, 1, [],
 example : exEco.WF := by decide
 example : cmdSwitch exEco 0 true (List.replicate 1024 0) = [.setValue ⟨277, 1, 64⟩] := by decide +kernel
 example : cmdSwitch exEco 0 true ((List.replicate 277 0) ++ [64] ++ List.replicate 746 0) = [] := by decide +kernel
+
+/-! ### a watercare command while the facade's own watercare polls are in flight (Model/WatercareRace.lean) -/
+
+/-- the generated statement order of `GeckoWaterCare.async_set_mode`: the command first, the local update after it; and the
+facade's poll applies its answer to the local mode -/
+theorem async_set_mode_order : asyncSetModeSteps = [.awaitSet, .localChange] ∧ facadePollAppliesAnswer = true := by decide
+
+/-- **the client reads back the requested mode whatever polls are in flight**: for ANY number of facade polls, started
+before, during or after the command, under ANY scheduler, once `async_set_mode(m)` has returned the spa holds `m` and the
+client's mode is `m` - and stays `m` while later polls complete -/
+theorem watercare_command_survives_polls (m spa cli : Nat) (sched : List Nat) :
+    let fin := WatercareRace.run asyncSetModeSteps m (WatercareRace.initSys spa cli) sched
+    fin.cmdPc = 2 → fin.spaWc = m ∧ fin.cliWc = m := by
+  intro fin hdone
+  have hp : asyncSetModeSteps = WatercareRace.goodSteps := async_set_mode_order.1
+  have h := WatercareRace.winv_run m sched _ (WatercareRace.winv_init m spa cli)
+  rw [← hp] at h
+  exact ⟨h.spa_set (Or.inr (by show 1 ≤ fin.cmdPc; omega)), h.done_cli hdone⟩
+
+/-- why the order is an obligation: with the local update BEFORE the command ("optimistic update"), one poll in flight
+makes the client read back the OLD mode after the command has completed (poll asked, local update, poll answered, SETWC) -/
+theorem optimistic_update_loses_the_mode :
+    let fin := WatercareRace.run [.localChange, .awaitSet] 2 (WatercareRace.initSys 1 1) [1, 0, 1, 0, 0]
+    fin.cmdPc = 2 ∧ fin.spaWc = 2 ∧ fin.cliWc = 1 := by decide
+
+/-- non-vacuity: the same schedule with the order of the source ends with both sides at the requested mode (the command
+waits for the lock while the poll is in flight) -/
+example : let fin := WatercareRace.run asyncSetModeSteps 2 (WatercareRace.initSys 1 1) [1, 0, 1, 0, 0, 0]
+    fin.cmdPc = 2 ∧ fin.spaWc = 2 ∧ fin.cliWc = 2 := by decide
 
 end GeckoModel.C13
